@@ -583,6 +583,13 @@ func init() {
 				}
 			}
 			c.Check(len(primStores) >= 1, fk+" :: promotion found", w.pos(f.Pos()), "c.primary = witness", "no store to c.primary")
+			// F54: the promoted witness must have left the witness list before it is the primary: the removal
+			// can be refused (no witness would be left), and a provider that is primary *and* witness confirms
+			// its own headers. The store to c.primary is reached only behind a successful removeWitnesses.
+			for _, ps := range primStores {
+				st := ps.(*ssa.Store)
+				c.guards(st.Parent(), st, k.key(f, "promote a witness to primary"), 0, guardRe("the promoted witness (and the bad ones) were taken off the witness list", `^nil\(c\.removeWitnesses\(.*\)\)$`))
+			}
 			for _, ap := range wappends {
 				bad := false
 				for _, ps := range primStores {
@@ -662,5 +669,124 @@ func init() {
 			}
 			c.Check(disjoint, key, w.ipos(s.Instr), "witnesses = list without the primary's position", "the witnesses "+w.expr(wit)+" include the primary "+w.expr(prim)+": its own reply then counts as a witness's confirmation")
 		}
+	})
+}
+
+// ------------------------------------------------------------------ C09.R10
+// F59: what a provider hands to the light client was decoded from an RPC server's JSON and is the
+// input of a liar as much as of an honest node; the requests to the witnesses run in goroutines nothing
+// recovers. The provider turns malformed answers into ErrBadLightBlock, it does not panic on them:
+//   - the height is read through the header pointer of a /commit answer only where that pointer was tested;
+//   - ValidatorSetFromExistingValidators (the constructor for /validators answers) reaches the code written
+//     for internally built sets — updateTotalVotingPower, which panics above the maximum, and
+//     findPreviousProposer, which panics on a repeated member — only after bounding the sum and refusing
+//     repeated addresses with error returns.
+func init() {
+	register("C09", "R10", "K1", "the HTTP provider and the validator-set constructor it uses refuse malformed answers with errors (nil header, total power above the maximum, repeated member)", 4, func(c *Ctx) {
+		w := c.W
+		if f := c.fn("light/provider/http", "http.LightBlock"); f != nil {
+			fk := funcKey(f)
+			n := 0
+			ky := newKeyer()
+			for _, b := range f.Blocks {
+				for _, in := range b.Instrs {
+					fa, ok := in.(*ssa.FieldAddr)
+					if !ok {
+						continue
+					}
+					ld, ok := fa.X.(*ssa.UnOp)
+					if !ok || ld.Op != token.MUL || !strings.HasSuffix(w.expr(ld), "#0.Header") {
+						continue
+					}
+					n++
+					c.guards(f, fa, ky.key(f, "read "+fieldName(fa.X.Type(), fa.Field)+" through the answer's header"), 0, guardNonNil("the answer carries a header", ld))
+				}
+			}
+			c.Check(n >= 1, fk+" :: reads through the header found", w.pos(f.Pos()), ">= 1", fmt.Sprintf("%d", n))
+		}
+		if f := c.fn("types", "ValidatorSetFromExistingValidators"); f != nil {
+			fk := funcKey(f)
+			max := c.mustConst("types", "MaxTotalVotingPower")
+			var bound, dup *ssa.BasicBlock
+			for _, ea := range condEdges(f) {
+				succ := ea.E.From.Succs[ea.E.Succ]
+				switch {
+				case ea.A.Kind == "cmp" && ea.A.Op == token.GTR:
+					if k, isC := constInt(ea.A.Y); isC && k == max {
+						if call := valueCall(ea.A.X); call != nil && w.isCall(call, "types#safeAddClip") && edgeOnlyFails(w, f, succ) {
+							bound = ea.E.From
+						}
+					}
+				case ea.A.Kind == "true":
+					// `_, ok := seen[string(val.Address)]; ok` → error
+					if ex, isEx := stripConv(ea.A.V).(*ssa.Extract); isEx && ex.Index == 1 {
+						if lk, isLk := ex.Tuple.(*ssa.Lookup); isLk && strings.Contains(w.expr(lk.Index), ".Address") && edgeOnlyFails(w, f, succ) {
+							dup = ea.E.From
+						}
+					}
+				}
+			}
+			after := func(test *ssa.BasicBlock, call ssa.CallInstruction) bool {
+				if test == nil {
+					return false
+				}
+				if test.Dominates(call.Block()) {
+					return true
+				}
+				for d := test; d != nil; d = d.Idom() {
+					if isLoopHead(d) && d.Dominates(call.Block()) && !loopBlocks(d)[call.Block()] {
+						return true
+					}
+				}
+				return false
+			}
+			n := 0
+			for _, call := range w.callsTo(f, "types#ValidatorSet.updateTotalVotingPower", "types#ValidatorSet.TotalVotingPower") {
+				n++
+				c.Check(after(bound, call), fk+" :: the panicking total is computed only after the sum was bounded with an error return", w.ipos(call), "sum > MaxTotalVotingPower → error, first", "the total (which panics above the maximum) is computed over members from an RPC answer without the sum having been checked")
+			}
+			for _, call := range w.callsTo(f, "types#ValidatorSet.findPreviousProposer") {
+				n++
+				c.Check(after(dup, call), fk+" :: members are compared only after repeated addresses were refused with an error", w.ipos(call), "address seen before → error, first", "findPreviousProposer (which panics on identical validators) runs over a list that may name a validator twice")
+			}
+			c.Check(n == 2, fk+" :: total and proposer computations found", w.pos(f.Pos()), "2", fmt.Sprintf("%d", n))
+		}
+	})
+}
+
+// ------------------------------------------------------------------ C09.R6
+// F53: backwards verification proves a chain of hash links from a trusted header down to *some* header of the
+// target height — one it has just fetched. The caller stores the light block it had before. The step is only
+// a verification of that block if the two are the same header: every successful exit of `backwards` lies
+// behind the comparison of the last linked header's hash with the target's, and the retry with another primary
+// is entered only with a target that is hash-equal to the original one.
+func init() {
+	register("C09", "R6", "K1", "backwards verification succeeds only if the header reached by the hash links is the header it was asked to verify", 2, func(c *Ctx) {
+		w := c.W
+		f := c.fn("light", "Client.backwards")
+		if f == nil {
+			return
+		}
+		fk := funcKey(f)
+		target := paramName(f, 3)
+		nOK, nRetry := 0, 0
+		for _, r := range returnsOf(f) {
+			ret := r.(*ssa.Return)
+			if len(ret.Results) != 1 {
+				continue
+			}
+			if isNilConst(ret.Results[0]) {
+				nOK++
+				c.guards(f, ret, fk+" :: report success", 0, guardRe("the linked header of the target height is the target header", `^true\(bytes\.Equal\(.*\.Hash\(\), `+q(target)+`\.Hash\(\)\)\)$`))
+				continue
+			}
+			if call := valueCall(ret.Results[0]); call != nil && staticCallee(call) == f {
+				nRetry++
+				nt := w.expr(callArgs(call)[2])
+				c.guards(f, ret, fk+" :: retry with another primary", 0, guardRe("the new primary's header of the target height is hash-equal to the target", `^true\(bytes\.Equal\(`+regexp.QuoteMeta(nt)+`\.Hash\(\), `+q(target)+`\.Hash\(\)\)\)$`))
+			}
+		}
+		c.Check(nOK >= 1, fk+" :: success exit found", w.pos(f.Pos()), ">= 1", fmt.Sprintf("%d", nOK))
+		c.Check(nRetry <= 1, fk+" :: at most one retry site", w.pos(f.Pos()), "<= 1", fmt.Sprintf("%d", nRetry))
 	})
 }
